@@ -400,6 +400,10 @@ func initModels() {
 	reg(U+"Lt", nil, ucmp(lt))
 	reg(U+"Gt", nil, ucmp(gt))
 	reg(U+"Eq", nil, ucmp(eq))
+	// signed comparisons: operands read as 256-bit two's complement numbers
+	signed := func(x string) string { return ite(ge(x, pow2(255).String()), sub(x, pow2(256).String()), x) }
+	reg(U+"Slt", nil, ucmp(func(a, b string) string { return lt(signed(a), signed(b)) }))
+	reg(U+"Sgt", nil, ucmp(func(a, b string) string { return gt(signed(a), signed(b)) }))
 	reg(U+"Cmp", nil, ucmp(cmpTerm))
 	reg(U+"IsZero", nil, func(f *frame, callee *ssa.Function, args []Val, st State, reach string, site ssa.CallInstruction) (Val, State, bool) {
 		nilGuard(f, reach, site, args[0][0])
